@@ -150,26 +150,13 @@ Print Assumptions C02_keys_remove_e2e.
 (** non-vacuity on [g_split] (a, b : C; a p u; b p _:x), empty shapes kept:
     at 1/2 the key (p, nonliteral) is present -- the largest count of the
     value class is 1 of 2 --, at 3/5 it is not *)
-Definition keep_empty (c : rcfg) : rcfg :=
-  {| r_tau := r_tau c; r_targets := r_targets c; r_ns := r_ns c; r_shapes_ns := r_shapes_ns c; r_cap := r_cap c;
-     r_inverse := r_inverse c; r_remove_empty := false; r_discard_useless := r_discard_useless c;
-     r_keep_less_specific := r_keep_less_specific c; r_all_compliant := r_all_compliant c; r_disable_or := r_disable_or c;
-     r_allow_redundant_or := r_allow_redundant_or c; r_allow_opt := r_allow_opt c;
-     r_disable_exact := r_disable_exact c; r_disable_comments := r_disable_comments c; r_mode := r_mode c |}.
-
 Definition I_split : insts := [(ex "a", [ex "C"]); (ex "b", [ex "C"])].
-
-Definition keys_of_run (c : rcfg) (thr : F BAlg) (g : graph) :=
-  match run_shapes BAlg c thr g with
-  | inl (ns, l) => Some (map (fun sh => (sh_class sh, sh_n sh, map (skey (scfg_of c ns)) (sh_stmts sh))) l)
-  | inr _ => None
-  end.
 
 Example C02_e2e_nonvacuous :
   track tau TAll (-1) g_split = inl I_split /\ class_count I_split (ex "C") = 2%N /\
-  keys_of_run (keep_empty base_rcfg) (b_ratio 1 2) g_split =
+  keys_of_run BAlg (with_remove_empty false base_rcfg) (b_ratio 1 2) g_split =
     Some [(ex "C", 2%N, [(false, tau, VClass (ex "C")); (false, ex "p", VNonLit)])] /\
-  keys_of_run (keep_empty base_rcfg) (b_ratio 3 5) g_split =
+  keys_of_run BAlg (with_remove_empty false base_rcfg) (b_ratio 3 5) g_split =
     Some [(ex "C", 2%N, [(false, tau, VClass (ex "C"))])] /\
   value_class tau (ex "p") [c_IRI_ELEM_TYPE] = VNonLit /\
   occ Direct tau I_split g_split (ex "C") (ex "p") c_IRI_ELEM_TYPE (CKn 1) = 1%N /\
